@@ -1,4 +1,4 @@
-import Bardolph.Proofs.Sim
+import Bardolph.Proofs.SimX
 /-!
 Statement-level simulation lemmas for C01 (`Props/C01Sim.lean`): the fragment of the language
 covered, and for every statement form of the fragment "the code `Gen.genStmt` emits does what
